@@ -225,8 +225,12 @@ def run(tier):
     ck = vlib.Check(PID, tier)
     exe = vlib.build_driver("conftext", ["conftext.c"])
 
+    import time
+    tm = {}
+    t0 = time.time()
     # 1. the monitor itself
     res = vlib.tlc("MC_ParseMon", cfg["mc"], workers=4)
+    tm["mc"] = round(time.time() - t0, 1); t0 = time.time()
     ck.add_tlc(res, "exhaustive " + cfg["mc"])
 
     # 2. inputs: documents rendered by ConfText (TLC) + seeded mutations
@@ -234,6 +238,7 @@ def run(tier):
     if gen.error or gen.violation:
         raise vlib.MachineryError("case export failed: %s %s" % (gen.error, gen.violation))
     cases = [b[0] for b in vlib.parse_behaviours(gen.out)]
+    tm["gen"] = round(time.time() - t0, 1); t0 = time.time()
     inputs = make_inputs(ck, cases, cfg)
     behs = to_steps(ck, inputs)
 
@@ -252,12 +257,16 @@ def run(tier):
         if seen[sig] <= 3:
             ck.violation(sig, {"binding": "A(replay)", "behaviour": strip(behsA[mm["b"]]), "step": 0, "why": mm["why"],
                                "record": mm["rec"], "text": c09.unruns(st["arg"]["text"])[:2000], "expected_events": st["exp"]["ev"]})
+    tm["replay"] = round(time.time() - t0, 1); t0 = time.time()
     ck.notes["replayed_event_sequences"] = len(behsA)
     ck.notes["replay_mismatches"] = len(mmsA)
 
     # 3. binding B: every recorded run validated against the monitor by TLC
     events, faults, rejects, tres = run_and_validate(ck, exe, behs, "Trace_ParseMon")
     ck.cov["transitions"] += tres.generated
+    tm["trace"] = round(time.time() - t0, 1)
+    tm["trace_tlc"] = round(tres.wall, 1)
+    ck.notes["phase_seconds"] = tm
     if faults or rejects:
         # re-run the affected behaviours once before reporting
         idx = sorted(set([b for b, _, _, _ in faults] + [events[l - 1]["_b"] for l, _, _ in rejects]))
